@@ -301,7 +301,7 @@ def apply_rewrite(text, frm, to):
 LOOP_KW = ("for", "while", "loop")
 
 
-def splice_fn(text, spec=None, ret=None, loops=None, before=None, after=None, rewrites=None, strip_pub=False, log=None, sel="", forloops=None, loopends=None, bodystart=None):
+def splice_fn(text, spec=None, ret=None, loops=None, before=None, after=None, rewrites=None, strip_pub=False, log=None, sel="", forloops=None, loopends=None, bodystart=None, bodyend=None):
     """text = verbatim fn item. Returns (new_text, segments) where segments = list of (kind, label, line_lo, line_hi)
     relative to new_text, for mapping verifier diagnostics back to named clauses."""
     log = log if log is not None else []
@@ -428,6 +428,13 @@ def splice_fn(text, spec=None, ret=None, loops=None, before=None, after=None, re
         edits.append((ct[b][2], "\n/*@SPEC-BEGIN*/\n" + "\n".join(spec) + "\n/*@SPEC-END*/\n", 0))
     if bodystart:
         edits.append((ct[b][3], "\n/*@GHOST-BEGIN body-start*/\n" + "\n".join(bodystart) + "\n/*@GHOST-END*/\n", 0))
+    if bodyend:
+        # ghost lines right before the body's closing brace: only when the body ends in a statement (`;` or `}`), i.e. the
+        # function's value is `()`; a trailing expression would be displaced
+        e_ = match_brace(ct, b)
+        if ct[e_ - 1][1] not in (";", "}"):
+            raise Undecided(f"{sel}: //@BODYEND needs a body that ends in a statement")
+        edits.append((ct[e_][2], "\n/*@GHOST-BEGIN body-end*/\n" + "\n".join(bodyend) + "\n/*@GHOST-END*/\n", 0))
     if loops or loopends:
         loops = loops or []
         e = match_brace(ct, b)
@@ -548,7 +555,7 @@ def compose(template_text, repo_root, read_file):
             args = {k: v.strip() for k, v in args.items()}
             if "file" not in args or "sel" not in args:
                 raise Undecided(f"bad //@ITEM line: {l}")
-            spec, loops, before, after, rew, forloops, loopends, bodystart = [], [], [], [], [], [], [], []
+            spec, loops, before, after, rew, forloops, loopends, bodystart, bodyend = [], [], [], [], [], [], [], [], []
             cur = None
             i += 1
             while i < len(lines) and not lines[i].strip().startswith("//@END"):
@@ -562,6 +569,8 @@ def compose(template_text, repo_root, read_file):
                     loops.append((int(s.split()[1]), cur))
                 elif s.startswith("//@BODYSTART"):     # lines inserted right after the function body's opening brace
                     cur = bodystart
+                elif s.startswith("//@BODYEND"):       # ghost lines right before the function body's closing brace
+                    cur = bodyend
                 elif s.startswith("//@LOOPEND"):
                     cur = []
                     loopends.append((int(s.split()[1]), cur))
@@ -596,11 +605,25 @@ def compose(template_text, repo_root, read_file):
                 item_text = re.sub(r"\bpub\((?:super|crate)\)", "pub", item_text)
                 rewrites_log.append({"rule": "R4", "item": args["sel"], "from": "pub(super|crate)", "to": "pub", "count": n_vis})
             src_line = src.count("\n", 0, a) + 1
+            if "lift_after" in args:
+                # R29 closure lifting: the `{ .. }` block that follows the literal anchor inside the located fn (a closure body) becomes
+                # the body of a function with the signature given by `as=`; captured variables become parameters. Block text verbatim.
+                anchor = args["lift_after"]
+                pos = item_text.find(anchor)
+                if pos < 0 or "as" not in args:
+                    raise Undecided(f"lost anchor: lift_after `{anchor}` not found in {args['sel']}")
+                ct_ = code_tokens(tokenize(item_text))
+                kb = next((j for j, t in enumerate(ct_) if t[0] == "punct" and t[1] == "{" and t[2] >= pos + len(anchor.rstrip()) - 1), None)
+                if kb is None:
+                    raise Undecided(f"lift_after `{anchor}`: no block follows in {args['sel']}")
+                ke = match_brace(ct_, kb)
+                item_text = args["as"] + " " + item_text[ct_[kb][2]:ct_[ke][3]]
+                rewrites_log.append({"rule": "R29", "item": args["sel"], "from": f"closure body after `{anchor}`", "to": args["as"], "count": 1})
             kind = args["sel"].split()[0]
             is_fn = "fn " in args["sel"] and not args["sel"].startswith(("struct", "enum", "const", "static", "type"))
             if is_fn:
                 new_text = splice_fn(item_text, spec=spec, ret=args.get("ret"), loops=loops, before=before, after=after,
-                                     rewrites=rew, strip_pub=(args.get("strip", "pub") == "pub"), log=rewrites_log, sel=args["sel"], forloops=forloops, loopends=loopends, bodystart=bodystart)
+                                     rewrites=rew, strip_pub=(args.get("strip", "pub") == "pub"), log=rewrites_log, sel=args["sel"], forloops=forloops, loopends=loopends, bodystart=bodystart, bodyend=bodyend)
             else:
                 new_text = item_text
                 for rule, frm, to in rew:
